@@ -94,7 +94,7 @@ def apply_rule(logic, info, ctx, setup_name, s, extra_nodes=None):
     b.append(node)
     env = dict(w=w0, old_consts=set(b.constants), old_worlds=set(b.worlds))
     rule = tab.rules.get(info['name'])
-    if setup_name == 'consts_desc':
+    if setup_name == 'consts_desc' or extra_nodes:
         # no trunk was built, so the projected constant limit defaults to 1: raise it for this hand-made branch
         from pytableaux.proof.helpers import MaxConsts
         try:
